@@ -46,6 +46,12 @@ FIELDS = OrderedDict([
                probe=[OrderedDict([('im', 0), ('ir', [1, 2]), ('om', 2)]), OrderedDict([('om', 2)]),
                       OrderedDict([('im', 1), ('ir', [1, 2, 3]), ('om', 2)]), OrderedDict([('im', 1)]),
                       OrderedDict([('im', -1), ('om', 2)])])),
+    # a repeated complex member: occurrence bounds count the items
+    ('xs', dict(type=lambda: SubArg.customize(min_occurs=1, max_occurs=2), complex_list=True,
+                ok=lambda v: 1 <= len(v) <= 2 and all('im' in i and 'om' in i for i in v),
+                base=[OrderedDict([('im', 1), ('om', 2)])],
+                probe=[[], [OrderedDict([('im', 1), ('om', 2)]), OrderedDict([('im', 3), ('om', 4)])],
+                       [OrderedDict([('im', 1), ('om', 2)])] * 3, [OrderedDict([('im', 1)])]])),
 ])
 
 
@@ -71,6 +77,11 @@ def build_request(family, args):
                     for x in (v2 if isinstance(v2, list) else [v2]):
                         parts.append('%s.%s=%s' % (k, k2, x))
                 continue
+            if isinstance(v, list) and v and isinstance(v[0], dict):
+                for i, item in enumerate(v):
+                    for k2, v2 in item.items():
+                        parts.append('%s[%d].%s=%s' % (k, i, k2, v2))
+                continue
             for x in (v if isinstance(v, list) else [v]):
                 parts.append('%s=%s' % (k, x))
         return 'GET', '/check', '&'.join(parts), b'', 'text/plain'
@@ -78,18 +89,20 @@ def build_request(family, args):
         return 'POST', '/', '', json.dumps({'check': args}).encode(), 'application/json'
     if family == 'yaml':
         import yaml
-        return 'POST', '/', '', yaml.safe_dump({'check': {k: (dict(v) if isinstance(v, dict) else v) for k, v in
-                                                            args.items()}}).encode(), 'text/yaml'
+        plain = lambda v: dict(v) if isinstance(v, dict) else ([plain(x) for x in v] if isinstance(v, list) else v)
+        return 'POST', '/', '', yaml.safe_dump({'check': {k: plain(v) for k, v in args.items()}}).encode(), 'text/yaml'
     if family == 'msgpack':
         import msgpack
-        return 'POST', '/', '', msgpack.packb({b'check': {k.encode(): ({k2.encode(): v2 for k2, v2 in v.items()} if isinstance(
-            v, dict) else v) for k, v in args.items()}}), 'application/x-msgpack'
+        bk = lambda v: {k2.encode(): v2 for k2, v2 in v.items()} if isinstance(v, dict) else (
+            [bk(x) for x in v] if isinstance(v, list) else v)
+        return 'POST', '/', '', msgpack.packb({b'check': {k.encode(): bk(v) for k, v in args.items()}}), 'application/x-msgpack'
     elts = []
     for k, v in args.items():
-        if isinstance(v, dict):
-            inner = ''.join('<tns:%s>%s</tns:%s>' % (k2, x, k2) for k2, v2 in v.items()
-                            for x in (v2 if isinstance(v2, list) else [v2]))
-            elts.append('<tns:%s>%s</tns:%s>' % (k, inner, k))
+        if isinstance(v, dict) or (isinstance(v, list) and v and isinstance(v[0], dict)):
+            for item in (v if isinstance(v, list) else [v]):
+                inner = ''.join('<tns:%s>%s</tns:%s>' % (k2, x, k2) for k2, v2 in item.items()
+                                for x in (v2 if isinstance(v2, list) else [v2]))
+                elts.append('<tns:%s>%s</tns:%s>' % (k, inner, k))
             continue
         for x in (v if isinstance(v, list) else [v]):
             elts.append('<tns:%s>%s</tns:%s>' % (k, x, k))
@@ -118,15 +131,20 @@ def _mk(family):
         types = [FIELDS[k]['type']() for k in names]
         calls = []
 
-        def check(ctx, b, u, w, s, e, r, g, o, n, v, d, x):
-            calls.append((b, u, w, s, e, r, g, o, n, v, d, x))
+        def check(ctx, b, u, w, s, e, r, g, o, n, v, d, x, xs):
+            calls.append((b, u, w, s, e, r, g, o, n, v, d, x, xs))
             return 1
         check._pyvc_native = True
         Svc = type(ServiceBase)('Svc', (ServiceBase,), {'check': rpc(*types, _returns=Integer)(check)})
-        inp, outp = protocols(family, 'soft')
+        if family == 'http_strict_arrays':
+            from spyne.protocol.http import HttpRpc
+            from spyne.protocol.json import JsonDocument
+            inp, outp = HttpRpc(validator='soft', strict_arrays=True), JsonDocument()
+        else:
+            inp, outp = protocols(family, 'soft')
         app = Application([Svc], TNS, name='VApp', in_protocol=inp, out_protocol=outp)
         wsgi = WsgiApplication(app)
-        method, path, qs, body, ctype = build_request(family, args)
+        method, path, qs, body, ctype = build_request('http' if family == 'http_strict_arrays' else family, args)
         env = {'REQUEST_METHOD': method, 'PATH_INFO': path, 'QUERY_STRING': qs, 'SERVER_NAME': 'h', 'SERVER_PORT': '80',
                'wsgi.url_scheme': 'http', 'wsgi.input': io.BytesIO(body), 'CONTENT_TYPE': ctype,
                'CONTENT_LENGTH': str(len(body))}
@@ -150,14 +168,17 @@ def _mk(family):
             norm = {k: (list(got[k]) if isinstance(got[k], (list, tuple)) else got[k]) for k in names}
             norm['e'] = str(getattr(norm['e'], 'name', norm['e'])) if not isinstance(norm['e'], str) else norm['e']
             c.check('values_delivered', all(norm[k] == (None if want[k] == ABSENT else want[k]) for k in names
-                                            if k not in ('e', 'x')), detail=(norm, want))
+                                            if k not in ('e', 'x', 'xs')), detail=(norm, want))
+            gxs = list(got['xs'] or [])
+            c.check('repeated_complex_argument_delivered', [(i.im, i.om) for i in gxs] == [(w.get('im'), w.get('om')) for w in
+                                                                                             want['xs']], detail=(gxs, want['xs']))
             gx = got['x']
             c.check('complex_argument_delivered', gx is not None and gx.im == want['x'].get('im') and gx.om == want['x'].get('om')
                     and list(gx.ir or []) == list(want['x'].get('ir', [])), detail=(repr(gx), want['x']))
         if not expected_ok:
             from spec import faultdoc
             try:
-                doc = faultdoc.decode_fault(family, resp)
+                doc = faultdoc.decode_fault('http' if family == 'http_strict_arrays' else family, resp)
             except Exception as e:
                 doc = None
             code = (doc or {}).get('faultcode') or ''
@@ -168,6 +189,6 @@ def _mk(family):
     return ob
 
 
-for _f in FAMILIES_ALL:
+for _f in FAMILIES_ALL + ['http_strict_arrays']:
     if _f != 'msgpackrpc':       # positional arguments: absence and repetition of a named member cannot be spelled
         _mk(_f)
